@@ -184,6 +184,45 @@ func Set(r *rand.Rand, pf Profile, try func(pattern string) bool) []string {
 			acc = append(acc, p)
 		}
 	}
+	if pf.Wild > 0 && r.IntN(10) == 0 {
+		// consecutive levels that each have a static, a parameter and a catch-all child: a lookup going down the static
+		// edges sets two alternatives aside per level (more than the tree is deep)
+		base := "/t"
+		if r.IntN(2) == 0 {
+			base = ""
+		}
+		p := base
+		levels := 2 + r.IntN(4)
+		// two flavours: the static prefixes are routes themselves (a node per segment and one per slash), or only the
+		// wildcard alternatives and the deepest routes are registered (one node per level: the recorded depth is small)
+		sparse := r.IntN(2) == 0
+		for d := 0; d < levels; d++ {
+			n := string(rune('0' + (d+strings.Count(base, "/"))%10))
+			alts := []string{p + "/{p" + n + "}", p + "/*{c" + n + "}"}
+			if sparse && d < levels-1 {
+				alts = []string{p + "/{p" + n + "}/x", p + "/*{c" + n + "}/y"}
+			} else if d == levels-1 {
+				// the deepest level: both wildcards, only the catch-all, or the catch-all one static segment further down
+				switch r.IntN(3) {
+				case 1:
+					alts = alts[1:]
+				case 2:
+					alts = []string{p + "/q/*{c" + string(rune('0'+(d+1+strings.Count(base, "/"))%10)) + "}"}
+				}
+			}
+			for _, q := range alts {
+				if try(q) {
+					acc = append(acc, q)
+				}
+			}
+			p += "/s"
+			if !sparse || d == levels-1 {
+				if try(p) {
+					acc = append(acc, p)
+				}
+			}
+		}
+	}
 	if pf.FanOut {
 		// more than 50 children under one node: distinct first bytes
 		base := "/f/"
